@@ -3,6 +3,7 @@ package guardiand
 import (
 	"context"
 	"encoding/hex"
+	"math"
 	"time"
 
 	gossipv1 "github.com/alephium/wormhole-fork/node/pkg/proto/gossip/v1"
@@ -42,6 +43,11 @@ func handleReobservationRequests(
 				}
 			}
 		case req := <-obsvReqC:
+			if req.ChainId > math.MaxUint16 {
+				// not a chain id: converting it would route the request to an unrelated watcher
+				logger.Error("invalid chain ID for reobservation request", zap.Uint32("chain_id", req.ChainId))
+				continue
+			}
 			r := cachedRequest{
 				chainId: vaa.ChainID(req.ChainId),
 				txHash:  hex.EncodeToString(req.TxHash),
